@@ -237,6 +237,9 @@ type driver struct {
 	nextOff uint64 // offset returned by the last successful Start
 	errs    int    // injected failures so far (each costs a real 500 ms retry delay)
 	tags    map[string]bool
+	// arguments of the flusher's write as last reported by FSnapshot
+	snapVals string
+	snapOff  uint64
 }
 
 func kmapCoq(m map[int]uint64) string {
@@ -253,6 +256,14 @@ func kmapCoq(m map[int]uint64) string {
 }
 
 func (d *driver) emit(a string) { d.acts = append(d.acts, a) }
+
+// emitSnapshot: the arguments of the storage write the flusher is about to make
+func (d *driver) emitSnapshot() {
+	d.in.mu.Lock()
+	d.snapVals, d.snapOff = kmapCoq(d.in.lastBatch), d.in.lastOff
+	d.in.mu.Unlock()
+	d.emit(fmt.Sprintf("FSnapshot %s %d", d.snapVals, d.snapOff))
+}
 
 func (d *driver) newIncarnation() {
 	in := &inc{w: d.w, arrivals: make(chan arrival, 4), gates: map[string]chan struct{}{"flusher": make(chan struct{}), "act": make(chan struct{})}, clock: d.clock}
@@ -444,9 +455,7 @@ func (d *driver) stepFlusher(m string) error {
 		if p == "seq.flusher.skip" {
 			d.emit("FSkip")
 		} else {
-			d.in.mu.Lock()
-			d.emit(fmt.Sprintf("FSnapshot %s %d", kmapCoq(d.in.lastBatch), d.in.lastOff))
-			d.in.mu.Unlock()
+			d.emitSnapshot()
 		}
 		d.flLoc = p
 	case "seq.flusher.skip", "seq.flusher.removed":
@@ -488,6 +497,14 @@ func (d *driver) afterWrite(failed bool) {
 	switch p {
 	case "st.write.enter":
 		d.emit("FWriteErr") // a new attempt, after the retry delay
+		// the retry must write what the flusher snapshotted: if the arguments of this attempt differ,
+		// that is what gets persisted - show it to the model (which has no such step) and the oracle
+		d.in.mu.Lock()
+		same := d.in.lastOff == d.snapOff && kmapCoq(d.in.lastBatch) == d.snapVals
+		d.in.mu.Unlock()
+		if !same {
+			d.emitSnapshot()
+		}
 	case "seq.flusher.removed":
 		d.emit("FRemove")
 	}
